@@ -385,8 +385,12 @@ func (dr *dirRepo) BlobCreate(opts ...BlobOpt) (BlobCreator, string, error) {
 		if err := conf.expect.Validate(); err != nil {
 			return nil, "", fmt.Errorf("invalid digest: %s: %w", string(conf.expect), err)
 		}
-		_, err := os.Stat(filepath.Join(dr.path, blobsDir, conf.expect.Algorithm().String(), conf.expect.Encoded()))
+		blobName := filepath.Join(dr.path, blobsDir, conf.expect.Algorithm().String(), conf.expect.Encoded())
+		_, err := os.Stat(blobName)
 		if err == nil {
+			// the content was pushed again, restart the GC grace period
+			now := time.Now()
+			_ = os.Chtimes(blobName, now, now)
 			return nil, "", types.ErrBlobExists
 		}
 	}
